@@ -74,6 +74,7 @@ def d1(ctx, F):
 def d2(ctx, F):
     rs = F.impl_method("futures_sink::Sink", sweeps.ROUTER, "start_send")
     ctx.touch(rs)
+    rs = F.inlined(rs)          # a header-parsing helper is looked through
     hdr_item = "selium_server::sink::router::CLIENT_ID_HEADER"
     rem = [c for c in rs.calls() if strip_generics(c.callee) == "std::collections::hash::map::HashMap::remove" and "String, alloc::string::String" in c.full]
     gm = [c for c in rs.calls() if strip_generics(c.callee) == "std::collections::hash::map::HashMap::get_mut" and "<K, V>" in c.full]
@@ -95,24 +96,30 @@ def d2(ctx, F):
         fields = rv["fields"]
         m = rv["ops"][fields.index("message")]
         r = flow.root(rs, m)
-        payload = set(rs.local_by_debug("payload"))
-        okm = (m.get("k") in ("move", "copy") and m["pl"]["l"] in payload) or (r[0] == "rv" and r[1]["k"] == "use" and r[1]["op"]["pl"]["l"] in payload)
+        # the message operand is the `message` field of the payload taken out of the incoming frame (argument 2)
+        incoming = {l for l in flow.derived(rs, {2}, calls=()) if rs.local_ty(l).startswith("selium_protocol::frame::MessagePayload")}
+        midx = fields.index("message")
+        def is_msg_of_incoming(pl):
+            return pl["l"] in incoming and [e for e in pl["p"] if isinstance(e, int)] == [midx]
+        okm = (m.get("k") in ("move", "copy") and is_msg_of_incoming(m["pl"])) or (r[0] == "rv" and r[1]["k"] == "use" and r[1]["op"].get("k") in ("move", "copy") and is_msg_of_incoming(r[1]["op"]["pl"]))
         h = rv["ops"][fields.index("headers")]
-        hv = flow.derived(rs, set(rs.local_by_debug("headers")), calls=("core::option::Option::Some",))
+        # the headers operand is the very map the tag was removed from (wrapped in Some), or None
+        hm = flow.root_local(rs, rem[0].args[0])
+        hv = flow.derived(rs, {hm} if hm is not None else set(), calls=("core::option::Option::Some",))
         okh = op_local(h) in hv or flow.root_local(rs, h) in hv
         ctx.check(okh, "C02.D2.rest-intact", "router:headers-dropped", "the remaining headers travel with the reply (None only when empty)", mp[0][1]["span"])
     ctx.check(okm, "C02.D2.rest-intact", "router:message-rebuilt", "the reply's message bytes are the incoming ones", rs.span)
     # malformed / unknown tags: Err without panic
     sites = panics.analyse(ctx, [rs], "C02.D2.bad-tag-no-panic", include_alloc=False)
     # (no floor on the number of panic-capable sites: a version without unwraps has none; the body itself is resolved fail-closed)
-    errs = [1 for i, j, pl, rv, s in K.aggregates(rs, "core::result::Result") if rv["variant"] == "Err" and pl["l"] == 0]
+    errs = [1 for i, j, pl, rv, s in K.aggregates(rs, "core::result::Result") if rv["variant"] == "Err"]
     ctx.floor("C02.D2.bad-tag-errors", len(errs) + len([c for c in rs.calls() if strip_generics(c.callee) == "core::ops::try_trait::FromResidual::from_residual"]), 4)
 
 
 def run(ctx):
     F = ctx.facts("quick")
     ex, sd, cfg = routers.report(ctx, F, "reqrep", "C02", lambda f: (f.kind in ("K1", "K3", "K9", "K13") and "buffered_err" not in f.key and "local:si" not in f.key and "slot-overwrite:server" not in f.key) or f.kind in ("K4", "K5"))
-    ctx.floor("C02.pollai.persistent-states", len(ex.persistent), 40)
+    ctx.floor("C02.pollai.persistent-states", len(ex.persistent), 8)
     ctx.ok("C02.pollai", "req/rep router explored exhaustively: %d persistent states, %d (block,state) nodes" % (len(ex.persistent), len(ex.it.nodes)), cfg.body.span)
     routing = ex.h.routing
     sends = sorted((o, t) for (k, o, t) in routing if k == "send" and o == "sink")
